@@ -530,6 +530,8 @@ bool encode_array::push(const struct message &msg)
 		if (curr < 0 || (size_t) curr > tmp.used) {
 			return false;
 		}
+		tmp.base = static_cast<const uint8_t *>(tmp.base) + curr;
+		tmp.used -= curr;
 	}
 	return true;
 }
